@@ -255,20 +255,38 @@ func (e *Enc) errKindIfaceSafe(key string, c *ssa.CallCommon) bool {
 // plainErrorValue: v boxes a value of a concrete type that has neither an Is nor an Unwrap method;
 // errors.Is(v, t) is then plain equality.
 func (e *Enc) plainErrorValue(v Val, concrete types.Type, st *State, rb Term) {
-	if e.w.errKind == nil {
-		return
-	}
 	errI := types.Universe.Lookup("error").Type().Underlying().(*types.Interface)
 	if !types.Implements(concrete, errI) {
 		return
 	}
-	ms := e.w.prog.MethodSets.MethodSet(concrete)
-	for i := 0; i < ms.Len(); i++ {
-		if n := ms.At(i).Obj().Name(); n == "Is" || n == "Unwrap" {
+	// outside of the error-kind sweep only for heimdall's own error types (few sites)
+	if e.w.errKind == nil {
+		t := concrete
+		if p, ok := t.(*types.Pointer); ok {
+			t = p.Elem()
+		}
+		n, ok := t.(*types.Named)
+		if !ok || n.Obj().Pkg() == nil || !strings.HasPrefix(n.Obj().Pkg().Path(), modulePath) {
 			return
 		}
 	}
+	hasIs := false
+	ms := e.w.prog.MethodSets.MethodSet(concrete)
+	for i := 0; i < ms.Len(); i++ {
+		switch ms.At(i).Obj().Name() {
+		case "Unwrap":
+			return
+		case "Is":
+			hasIs = true
+		}
+	}
 	src := "forall t error :: Is(r, t) <==> (r != nil && r == t)"
+	if hasIs {
+		if _, ok := e.w.ct.Specs["customIs"]; !ok {
+			return
+		}
+		src = "forall t error :: Is(r, t) ==> (r == t || customIs(r, t))"
+	}
 	ex, err := ParseCExpr(src)
 	if err != nil {
 		panic(err)
